@@ -106,7 +106,11 @@ class Proxy:
             if tag == 'eio':
                 ns = None
             det.point((tag, name, ns))
-            r = v(*a, **k)
+            det.local.depth = getattr(det.local, 'depth', 0) + 1
+            try:
+                r = getattr(v, '_orig', v)(*a, **k)
+            finally:
+                det.local.depth -= 1
             rec = r
             if name == 'get_namespaces':
                 rec = list(r)
@@ -132,6 +136,7 @@ class ThreadLog(_Quiet):
         self.contained.append((self.det.idx(), str(msg), type(sys.exc_info()[1]).__name__))
 
 
+NESTED = ('basic_disconnect', 'basic_leave_room', 'is_connected')
 ACTIONS = ('api', 'client', 'lost', 'other_api', 'other_client')
 MODEL_TASK = {
     'api': ('api', [0]), 'client': ('clientDisc', [0]), 'lost': ('lost', [0, 1]),
@@ -154,7 +159,7 @@ def access_key(label):
 
 class Run:
     """one schedule on a fresh real threaded server.
-    cfg = {'actions': [...], 'others': bool}"""
+    cfg = {'actions': [...], 'others': bool, 'nested': bool}"""
 
     def __init__(self, cfg):
         self.cfg = cfg
@@ -186,6 +191,12 @@ class Run:
         self.mgr = sio.manager
         self.sids = [self.mgr.sid_from_eio_sid('T1', ns) for ns in NS_NAMES]
         w.sent_all()
+        if cfg.get('nested'):
+            # pre-emption also at the calls the manager makes to its own methods while the server is
+            # inside one of its calls (label 'mgr*'): the steps of `manager.disconnect` and the
+            # `is_connected` inside `can_disconnect`
+            for name in NESTED:
+                self._nest(name)
         sio.manager = Proxy(self.mgr, det, 'mgr', self.access)
         sio.eio = Proxy(w.eio, det, 'eio', self.access)
         sock = w.socks['T1']
@@ -204,6 +215,19 @@ class Run:
         # the code in front of a thread's first manager/transport access touches neither: run it now
         for i in range(self.n):
             det.step(i)
+
+    def _nest(self, name):
+        det, mgr, access = self.det, self.mgr, self.access
+        real = getattr(mgr, name)
+
+        def nested(*a, **k):
+            if det.idx() is not None and getattr(det.local, 'depth', 0) > 0:
+                ns = k.get('namespace', a[1] if len(a) > 1 and isinstance(a[1], str) else None)
+                det.point(('mgr*', name, ns))
+                access.append((det.idx(), 'mgr*', name, ns, None))
+            return real(*a, **k)
+        nested._orig = real
+        setattr(mgr, name, nested)
 
     def enabled(self):
         return [i for i in range(self.n) if self.det.pending[i] is not None]
@@ -230,7 +254,22 @@ class Run:
         snap = {}
         visited = {i: [] for i in range(self.n)}
         ai = {i: 0 for i in range(self.n)}
-        for i, lab in zip(self.sched, self.labels):
+        # an access of the server and the nested manager calls it leads to form one group; the model
+        # step of the group is placed at its last sub-step (`can_disconnect` evaluates `is_connected`
+        # there; `manager.disconnect` has removed both membership and mark only there)
+        emit = {}
+        open_group = {}
+        for pos, (i, lab) in enumerate(zip(self.sched, self.labels)):
+            if lab[0] == 'mgr*' and i in open_group:
+                emit[pos] = emit.pop(open_group[i])
+                open_group[i] = pos
+            else:
+                emit[pos] = lab
+                open_group[i] = pos
+        for pos, i in enumerate(self.sched):
+            if pos not in emit:
+                continue
+            lab = emit[pos]
             key = access_key(lab)
             if key not in ACCESS_PC:
                 unmapped.append(lab)
@@ -366,6 +405,16 @@ def explore(cfg, indep=None, limit=None):
         stack[-1]['pos'] += 1
 
 
+def random_schedule(cfg, rng):
+    run = Run(cfg)
+    while True:
+        en = run.enabled()
+        if not en:
+            break
+        run.step(rng.choice(en))
+    return run.finish()
+
+
 def replay_schedule(cfg, sched):
     run = Run(cfg)
     for i in sched:
@@ -398,7 +447,7 @@ def independent(a, b):
     if na in READS and nb in READS:
         return True
     if 'get_namespaces' in (na, nb):
-        return 'disconnect' not in (na, nb)
+        return not any(x in (na, nb) for x in ('disconnect', 'basic_disconnect', 'basic_leave_room'))
     return la[2] != lb[2]
 
 
